@@ -766,7 +766,7 @@ class PartialIKSJac(_Smooth):
 
 
 for _b in (UpperBoundKS, LowerBoundKS, TotalKSJac, PartialKSJac, IKS, TotalIKSJac, PartialIKSJac):
-    agg_variants(_b, vector_scale=_b in (UpperBoundKS, TotalKSJac))
+    agg_variants(_b)  # (a vector scale is only put under contract for the sum-square and maximum aggregations)
 
 
 # ============================================================================ negation helpers of MDOFunction, linear functions
